@@ -92,6 +92,12 @@ def nfText (isNan neg : Bool) (ops : Ops) : List Char :=
   signText neg ops ++ (if isNan then (if ops.upper then "NAN".toList else "nan".toList)
                        else (if ops.upper then "INF".toList else "inf".toList))
 
+theorem absQ_eq (q : ℚ) : absQ q = |q| := by
+  unfold absQ
+  split
+  · rw [abs_of_neg (by assumption)]
+  · rw [abs_of_nonneg (by linarith)]
+
 theorem ckInt_ok' {v : Int} (h : -2147483648 ≤ v ∧ v ≤ 2147483647) : ckInt v = .ok v := ckInt_ok h.1 h.2
 
 end Igris.C13
